@@ -18,7 +18,10 @@
 (***************************************************************************)
 EXTENDS Integers, Sequences, FiniteSets, TLC
 
-CONSTANTS MaxObjs, MaxOps, Classes
+CONSTANTS MaxObjs, MaxOps, Classes, NewTimes
+
+StdTimes == {0, 5}
+NegTimes == {-1, -2}      \* hash(-1) = hash(-2) in CPython: equal hashes, unequal messages
 
 Bad == 999
 Twin == 777      \* the float 1.0: equal to the valid value 1 but not an integer
@@ -39,7 +42,7 @@ Record(s) == hist' = Append(hist, s)
 Init == heap = <<>> /\ hist = <<>>
 
 New == /\ ~Full
-       /\ \E c \in Classes, x \in {1, 2}, t \in {0, 5} :
+       /\ \E c \in Classes, x \in {1, 2}, t \in NewTimes :
             /\ (c = "RT" => x = 1)
             /\ heap' = Append(heap, Obj(c, FALSE, x, t))
             /\ Record(Step("new", 0, 0, "", 0, TRUE, Len(heap) + 1))
